@@ -143,17 +143,25 @@ Proof. intros; split; [apply pytensor_grad_length; auto | apply vjp_is_adjoint; 
 Print Assumptions C19_pytensor_grad.
 
 (* PyTensorOperator's forward Op and the gradient Op it builds belong to different
-   classes, so PyTensor's graph merge can never identify Op(v) with Op^H(v) ... *)
+   classes, so PyTensor's graph merge can never identify Op(v) with Op^H(v) *)
 Theorem C19_pytensor_forward_gradient_distinct :
-  forall (R : Type) dims dimsd (A AH : list (list R)),
-    pt_eqb (pt_wrap dims dimsd A) (pt_gradient_op dims dimsd AH) = false.
+  forall (R : Type) dims dimsd id idH (A AH : list (list R)),
+    pt_eqb (pt_wrap dims dimsd id A) (pt_gradient_op dims dimsd idH AH) = false.
 Proof. exact @pt_forward_gradient_distinct. Qed.
 Print Assumptions C19_pytensor_forward_gradient_distinct.
-(* ... but the statement "equal Ops compute the same map" (what the merge pass relies
-   on) is false of the code: __props__ = (dims, dimsd, shape) leaves the wrapped
-   operator out, so wrappers of two different same-shaped operators are equal. *)
-Theorem C19_pytensor_op_identity_refuted :
-  exists (a b : pt_op QcR) x, pt_eqb a b = true /\ map this (mv QcR (pt_mat a) x) <> map this (mv QcR (pt_mat b) x).
-Proof. exists (pt_wrap [2] [2] [[qz 1; qz 2]; [qz 3; qz 4]]), (pt_wrap [2] [2] [[qz 0; qz 1]; [qz 5; qz (-2)]]), [qz 1; qz (-1)].
-  split; [reflexivity | vm_compute; discriminate]. Qed.
-Print Assumptions C19_pytensor_op_identity_refuted.
+(* __props__ includes the wrapped operator (compared by identity): wrappers of
+   different operators are different Ops, whatever their dims/dimsd/shape ... *)
+Theorem C19_pytensor_different_operators_distinct :
+  forall (R : Type) (a b : pt_op R), pt_obj a <> pt_obj b -> pt_eqb a b = false.
+Proof. exact @pt_different_operators_distinct. Qed.
+Print Assumptions C19_pytensor_different_operators_distinct.
+(* ... so Ops that compare equal (and may be merged) compute the same map *)
+Theorem C19_pytensor_equal_ops_same_operator :
+  forall (R : Type) (heap : nat -> list (list R)) (a b : pt_op R),
+    pt_mat a = heap (pt_obj a) -> pt_mat b = heap (pt_obj b) -> pt_eqb a b = true -> pt_mat a = pt_mat b.
+Proof. exact @pt_equal_ops_same_operator. Qed.
+Print Assumptions C19_pytensor_equal_ops_same_operator.
+Example C19_pytensor_identity_example :   (* same dims/dimsd/shape, two operator objects; and one object wrapped twice *)
+  pt_eqb (pt_wrap [2] [2] 1 [[1; 2]; [3; 4]]) (pt_wrap [2] [2] 2 [[0; 1]; [5; 2]]) = false /\
+  pt_eqb (pt_wrap [2] [2] 1 [[1; 2]; [3; 4]]) (pt_wrap [2] [2] 1 [[1; 2]; [3; 4]]) = true.
+Proof. split; reflexivity. Qed.
